@@ -8,6 +8,10 @@ CHECKS = {
          "Every chain of <=3 (quick) / <=4 (thorough) operators over the 12 non-pipe operators, with operand forms (application, parenthesised sub-chain, not-prefixed application), line breaks before operators and pipe chains, is transpiled by the fc built from the working tree; the grouping of the emitted Go (go/parser) must equal the grouping an independent table-driven parser computes from the published table. Exhaustive within the bound, no sampling.",
          "Trusts go/parser to read the emitted expression and the table as written in the property statement; says nothing about chains longer than the bound.",
          "DESIGN.md C08"),
+ "C09": ("bounded-exhaustive enumeration of unions x arm selections x arm forms x hosting positions (choice-tree explorer), one fc process per match; accepted programs compiled and run on every constructor value",
+         "Every union with 1..4 (quick) / 1..5 (thorough) cases x every payload mask x every non-empty ordered selection of distinct arms x pattern form per payload arm x with/without default (x 7 hosting positions for n<=3) is given to the fc built from the working tree; accept/reject, absence of output on reject and the named uncovered case must equal a reference set computation. Accepted programs with n<=3 are also compiled and executed on every constructor value (never-reached panic must not fire, the constructor's arm must run).",
+         "Default-only matches, misplaced default arms, duplicate arms and foreign case names are outside the space. Diagnostic wording is not matched, only the presence of an uncovered case's name.",
+         "DESIGN.md C09"),
 }
 NOT_APPLICABLE = []
 
